@@ -111,19 +111,23 @@ def bounded(check, tier, seed):
     ns = {k: getattr(fmtfuncs, k) for k in dir(fmtfuncs) if not k.startswith("_")}
     s = Suite(check, "C19.repr", "eval(repr(f)) in the fmtfuncs namespace compared per character, for every pool value with at least one run",
               bound=f"pool {len(P)}", exhaustive=False)
-    for f in P[:n_repr]:
+    esc_runs = [FmtStr(Chunk("\x1b[1mx", {"fg": 31})), FmtStr(Chunk("a\x1b[", {"bold": True})), FmtStr(Chunk("p", {}), Chunk("\x1b[44mq", {"underline": True})),
+                FmtStr(Chunk("\x1b[1mx")), fmtstr("a", "red") + "\x1b[44mq"]      # (the last two: escape text in UNformatted runs)
+    for f in P[:n_repr] + esc_runs:
         if not f.chunks:
             continue
         s.case(repr(f), sample=repr(f))
         try:
             r = eval(repr(f), dict(ns))
-            r = r if isinstance(r, FmtStr) else fmtstr(r)
+            if isinstance(r, str):
+                r = FmtStr(Chunk(r))        # a plain string literal: its characters, unformatted (NOT fmtstr(r), which would parse it)
+            esc_fmt = any("\x1b[" in c.s and dict(c.atts) for c in f.chunks)
             if cells(r) != cells(f):
-                s.fail("C19.repr", dict(runs=str(f.chunks), repr=repr(f)), f"evaluates to {r.chunks}")
+                s.fail("C19.repr", dict(runs=str(f.chunks), repr=repr(f), escape_in_formatted_run=esc_fmt), f"evaluates to {r.chunks}")
             elif str(r) != str(f) and all(len(c.s) for c in f.chunks):
-                s.fail("C19.repr", dict(runs=str(f.chunks), repr=repr(f)), f"evaluates to a different terminal string {str(r)!r}")
+                s.fail("C19.repr", dict(runs=str(f.chunks), repr=repr(f), escape_in_formatted_run=esc_fmt), f"evaluates to a different terminal string {str(r)!r}")
         except Exception as e:
-            s.fail("C19.repr", dict(runs=str(f.chunks), repr=repr(f)), f"does not evaluate: {type(e).__name__}: {e}")
+            s.fail("C19.repr", dict(runs=str(f.chunks), repr=repr(f), escape_in_formatted_run=False), f"does not evaluate: {type(e).__name__}: {e}")
     s.done()
 
 
